@@ -88,7 +88,8 @@ Proof.
   destruct (should_put (ws_opts s) (ws_idx s) c p) as [[|]|e]; try reflexivity.
   destruct (write_chunks (ws_dev s) (data_base (ws_opts s) + ws_pos s) (ld_chunks [c; d])) as [[dv abs] ok].
   destruct ok; [reflexivity|]. destruct (abs =? data_base (ws_opts s) + ws_pos s); [reflexivity|].
-  remember (ws_kind s) as kk eqn:Ek. destruct kk as [|[|]]; cbn; symmetry; exact Ek.
+  remember (ws_kind s) as kk eqn:Ek.
+  destruct kk as [|[|]]; try (destruct (dev_try_truncate dv _) as [dv' [|]]); cbn; symmetry; exact Ek.
 Qed.
 
 Lemma direct_puts_kind puts : forall s, ws_kind (direct_puts s puts) = ws_kind s.
